@@ -217,6 +217,8 @@ def explore(unit, repo):
             except Exception as ex:     # an exception raised by the code under verification
                 tb = sys.exc_info()[2]
                 where = _innermost_file(tb)
+                if type(ex).__module__.split('.')[0] in ('z3', 'ctypes') or isinstance(ex, RecursionError):
+                    raise Unsupported('solver-library error inside the engine %s: %s' % (type(ex).__name__, str(ex)[:200]))
                 if where.startswith(HERE) and not isinstance(ex, ModelledError):
                     raise Unsupported('engine error %s: %s at %s' % (type(ex).__name__, ex, traceback.format_exc(limit=-3)))
                 if isinstance(ex, (AttributeError, TypeError)) and not isinstance(ex, ModelledError) and any(pn in str(ex) for pn in PROXY_NAMES):
@@ -252,8 +254,9 @@ def explore(unit, repo):
         res.paths += 1
         work.extend(ctx.pending)
         keep = getattr(unit, 'keep_kinds', None)
+        drop = getattr(unit, 'drop_names', ())      # e.g. IEEE float division (inf / nan, not an exception): stated as an assumption by the unit
         for n, o in enumerate(ctx.obl):
-            if keep is None or o.kind in keep:
+            if (keep is None or o.kind in keep) and o.name not in drop:
                 res.obligations.append(o)
         res.canary.append((list(ctx.pc_nogoal), ended, list(ctx.prefix[:ctx.pos])))
     Ctx.cur = None
